@@ -150,6 +150,13 @@ theorem card_strict {a b : Nat} (h : le a b) (hne : a ≠ b) (ha : a < 256) (hb 
 
 /-! ## evalExpr -/
 
+/-- bit 0, once set, stays set as values ascend: gates are monotone. -/
+theorem low_mono {a b : Nat} (h : le a b) (ha : a % 2 = 1) : b % 2 = 1 := by
+  have h0 : a.testBit 0 = true := by rw [Nat.testBit_zero]; simp [ha]
+  have := (le_iff.mp h) 0 h0
+  rw [Nat.testBit_zero] at this
+  simpa using this
+
 theorem evalExpr_lt (env ρ : Nat → Nat) (e : Expr) : evalExpr env ρ e < 256 := by
   induction e with
   | const c => exact Nat.mod_lt _ (by decide)
@@ -162,10 +169,16 @@ theorem evalExpr_lt (env ρ : Nat → Nat) (e : Expr) : evalExpr env ρ e < 256 
     split
     · exact iha
     · exact ihb
+  | gate c a _ iha =>
+    simp only [evalExpr]
+    split
+    · exact iha
+    · decide
 
-/-- `Mono` is automatic: bodies are monotone in the values of their (dynamic) callees. -/
+/-- `Mono` is automatic: bodies are monotone in the values of their callees (the callees under
+    the LARGER assignment: a gate that is open below is open above). -/
 theorem evalExpr_mono (env : Nat → Nat) {ρ ρ' : Nat → Nat} (e : Expr)
-    (h : ∀ c ∈ callees env e, le (ρ c) (ρ' c)) : le (evalExpr env ρ e) (evalExpr env ρ' e) := by
+    (h : ∀ c ∈ callees env ρ' e, le (ρ c) (ρ' c)) : le (evalExpr env ρ e) (evalExpr env ρ' e) := by
   induction e with
   | const c => exact le_refl _
   | input i => exact le_refl _
@@ -182,14 +195,104 @@ theorem evalExpr_mono (env : Nat → Nat) {ρ ρ' : Nat → Nat} (e : Expr)
     split
     · rename_i hc; rw [if_pos hc] at h; exact iha h
     · rename_i hc; rw [if_neg hc] at h; exact ihb h
+  | gate c a ihc iha =>
+    have hcm := ihc (fun x hx => h x (by simp [callees, hx]))
+    simp only [evalExpr]
+    by_cases ho : evalExpr env ρ c % 2 = 1
+    · have ho' := low_mono hcm ho
+      rw [if_pos ho, if_pos ho']
+      apply iha
+      intro x hx
+      apply h x
+      simp only [callees, if_pos ho', List.mem_append]
+      exact Or.inr hx
+    · rw [if_neg ho]; exact zero_le _
 
-/-- a body only looks at its dynamic callees. -/
+/-- a body only looks at its callees. -/
 theorem evalExpr_congr (env : Nat → Nat) {ρ ρ' : Nat → Nat} (e : Expr)
-    (h : ∀ c ∈ callees env e, ρ c = ρ' c) : evalExpr env ρ e = evalExpr env ρ' e :=
-  le_antisymm (evalExpr_mono env e (fun c hc => by rw [h c hc]; exact le_refl _))
-    (evalExpr_mono env e (fun c hc => by rw [h c hc]; exact le_refl _))
+    (h : ∀ c ∈ callees env ρ e, ρ c = ρ' c) : evalExpr env ρ e = evalExpr env ρ' e := by
+  induction e with
+  | const c => rfl
+  | input i => rfl
+  | call j => simp only [evalExpr]; rw [h j (by simp [callees])]
+  | union a b iha ihb =>
+    simp only [evalExpr]
+    rw [iha (fun c hc => h c (by simp [callees, hc])), ihb (fun c hc => h c (by simp [callees, hc]))]
+  | inter a b iha ihb =>
+    simp only [evalExpr]
+    rw [iha (fun c hc => h c (by simp [callees, hc])), ihb (fun c hc => h c (by simp [callees, hc]))]
+  | ite i a b iha ihb =>
+    simp only [evalExpr]
+    simp only [callees] at h
+    split
+    · rename_i hc; rw [if_pos hc] at h; exact iha h
+    · rename_i hc; rw [if_neg hc] at h; exact ihb h
+  | gate c a ihc iha =>
+    have hc := ihc (fun x hx => h x (by simp [callees, hx]))
+    simp only [evalExpr]
+    rw [← hc]
+    by_cases ho : evalExpr env ρ c % 2 = 1
+    · rw [if_pos ho, if_pos ho]
+      apply iha
+      intro x hx
+      apply h x
+      simp only [callees, if_pos ho, List.mem_append]
+      exact Or.inr hx
+    · rw [if_neg ho, if_neg ho]
 
-theorem callees_sub_all (env : Nat → Nat) (e : Expr) : ∀ c ∈ callees env e, c ∈ allCallees e := by
+/-- ... and so does its callee list. -/
+theorem callees_congr (env : Nat → Nat) {ρ ρ' : Nat → Nat} (e : Expr)
+    (h : ∀ c ∈ callees env ρ e, ρ c = ρ' c) : callees env ρ e = callees env ρ' e := by
+  induction e with
+  | const c => rfl
+  | input i => rfl
+  | call j => rfl
+  | union a b iha ihb =>
+    simp only [callees]
+    rw [iha (fun c hc => h c (by simp [callees, hc])), ihb (fun c hc => h c (by simp [callees, hc]))]
+  | inter a b iha ihb =>
+    simp only [callees]
+    rw [iha (fun c hc => h c (by simp [callees, hc])), ihb (fun c hc => h c (by simp [callees, hc]))]
+  | ite i a b iha ihb =>
+    simp only [callees] at h ⊢
+    split
+    · rename_i hc; rw [if_pos hc] at h; exact iha h
+    · rename_i hc; rw [if_neg hc] at h; exact ihb h
+  | gate c a ihc iha =>
+    have hc := ihc (fun x hx => h x (by simp [callees, hx]))
+    have hv := evalExpr_congr env c (fun x hx => h x (by simp [callees, hx]))
+    simp only [callees]
+    rw [← hc, ← hv]
+    by_cases ho : evalExpr env ρ c % 2 = 1
+    · rw [if_pos ho, if_pos ho]
+      congr 1
+      apply iha
+      intro x hx
+      apply h x
+      simp only [callees, if_pos ho, List.mem_append]
+      exact Or.inr hx
+    · rw [if_neg ho, if_neg ho]
+
+/-- gate-free bodies: the callees are determined by the inputs. -/
+theorem callees_noGate (env : Nat → Nat) (ρ ρ' : Nat → Nat) (e : Expr) (h : e.noGate = true) :
+    callees env ρ e = callees env ρ' e := by
+  induction e with
+  | const c => rfl
+  | input i => rfl
+  | call j => rfl
+  | union a b iha ihb =>
+    simp only [Expr.noGate, Bool.and_eq_true] at h
+    simp only [callees]; rw [iha h.1, ihb h.2]
+  | inter a b iha ihb =>
+    simp only [Expr.noGate, Bool.and_eq_true] at h
+    simp only [callees]; rw [iha h.1, ihb h.2]
+  | ite i a b iha ihb =>
+    simp only [Expr.noGate, Bool.and_eq_true] at h
+    simp only [callees]; rw [iha h.1, ihb h.2]
+  | gate c a _ _ => simp [Expr.noGate] at h
+
+theorem callees_sub_all (env ρ : Nat → Nat) (e : Expr) :
+    ∀ c ∈ callees env ρ e, c ∈ allCallees e := by
   induction e with
   | const c => simp [callees]
   | input i => simp [callees]
@@ -208,6 +311,14 @@ theorem callees_sub_all (env : Nat → Nat) (e : Expr) : ∀ c ∈ callees env e
     split at hc
     · exact Or.inl (iha c hc)
     · exact Or.inr (ihb c hc)
+  | gate g a ihg iha =>
+    intro c hc
+    simp only [callees, allCallees, List.mem_append] at *
+    rcases hc with hc | hc
+    · exact Or.inl (ihg c hc)
+    · split at hc
+      · exact Or.inr (iha c hc)
+      · cases hc
 
 /-! ## Kleene iteration -/
 
@@ -348,9 +459,9 @@ theorem lfp_fix (P : Prog) (env : Nat → Nat) : step P env (lfp P env) = lfp P 
 
 theorem lfp_lt (P : Prog) (env : Nat → Nat) (i : Nat) : lfp P env i < 256 := kleene_lt P env _ i
 
-/-- `lfp` is below every post-fixpoint on a callee-closed set `S`. -/
+/-- `lfp` is below every post-fixpoint `σ` on a set `S` closed under the callees under `σ`. -/
 theorem kleene_le_of_post (P : Prog) (env : Nat → Nat) (S : Nat → Prop) (σ : Nat → Nat)
-    (hclosed : ∀ x, S x → ∀ c ∈ callees env (P.node x).body, S c)
+    (hclosed : ∀ x, S x → ∀ c ∈ callees env σ (P.node x).body, S c)
     (hpost : ∀ x, S x → le (step P env σ x) (σ x)) (k : Nat) :
     ∀ x, S x → le (kleene P env k x) (σ x) := by
   induction k with
@@ -361,7 +472,7 @@ theorem kleene_le_of_post (P : Prog) (env : Nat → Nat) (S : Nat → Prop) (σ 
     exact evalExpr_mono env _ (fun c hc => ih c (hclosed x hx c hc))
 
 theorem lfp_le_of_post (P : Prog) (env : Nat → Nat) (S : Nat → Prop) (σ : Nat → Nat)
-    (hclosed : ∀ x, S x → ∀ c ∈ callees env (P.node x).body, S c)
+    (hclosed : ∀ x, S x → ∀ c ∈ callees env σ (P.node x).body, S c)
     (hpost : ∀ x, S x → le (step P env σ x) (σ x)) :
     ∀ x, S x → le (lfp P env x) (σ x) :=
   kleene_le_of_post P env S σ hclosed hpost _
